@@ -65,4 +65,16 @@ def unlinkArgs : List String := ["self.chanid", "self.chanid"]
 /-- … and the method of class Channel each of those calls sits in -/
 def unlinkCallers : List String := ["_handle_close", "_unlink"]
 
+/-- every mention of self.in_window_sofar: (method, is a write, lexically inside a self.lock region) -/
+def sofarAccesses : List (String × Bool × Bool) := [
+  ("__init__", true, false),
+  ("_set_window", true, false),
+  ("_check_add_window", true, true),
+  ("_check_add_window", false, true),
+  ("_check_add_window", false, true),
+  ("_check_add_window", false, true),
+  ("_check_add_window", false, true),
+  ("_check_add_window", true, true)
+]
+
 end PV.Generated.ChanLock
